@@ -134,6 +134,7 @@ fn w_scn<T: Payload>(n: usize, mode: WMode) -> &'static str {
     let rep = Rc::new(RefCell::new(WReport::default()));
     let rep2 = rep.clone();
     let si = with(|h| h.streams.len());
+    with(|h| h.prefer_blocked = mode == WMode::CancelOrDrop);
     driver::start_task(async move {
         let _g = Guard::new();
         let (mut tx, rx) = unsafe { stream_new(T::vt()) };
@@ -236,6 +237,7 @@ fn r_scn<T: Payload>(q: usize, mode: RMode) -> &'static str {
     let got: Rc<RefCell<(Vec<Item>, Vec<String>, bool)>> = Rc::new(RefCell::new((vec![], vec![], false)));
     let got2 = got.clone();
     let si = with(|h| h.streams.len());
+    with(|h| h.prefer_blocked = matches!(mode, RMode::CancelOrDrop(_)));
     driver::start_task(async move {
         let (tx, mut rx) = unsafe { stream_new(T::vt()) };
         // RawStreamWriter has no take_handle: the writer handle goes to the host, the Rust
@@ -422,6 +424,7 @@ fn f_scn(heap: bool, mode: FMode, allow_cancel: bool) -> &'static str {
     let rep: Rc<RefCell<Vec<String>>> = Rc::new(RefCell::new(vec![]));
     let rep2 = rep.clone();
     let fi = with(|h| h.futs.len());
+    with(|h| h.prefer_blocked = matches!(mode, FMode::WriteCancelOrDrop | FMode::ReadCancelOrDrop) || allow_cancel);
     macro_rules! body {
         ($vt:expr, $mk:expr, $bytes:expr, $default:expr) => {{
             driver::start_task(async move {
@@ -607,6 +610,7 @@ fn writer_handle<T>(w: &wit_bindgen::FutureWriter<T>) -> u32 {
 fn s_scn(indirect: bool, result: ResKind, may_drop: bool, two: bool) -> &'static str {
     let rep: Rc<RefCell<Vec<String>>> = Rc::new(RefCell::new(vec![]));
     let rep2 = rep.clone();
+    with(|h| h.prefer_blocked = may_drop);
     driver::start_task(async move {
         let mut imp = Imp::new(indirect, result);
         let params = imp.params(0x30);
@@ -696,6 +700,7 @@ enum TBody {
 fn t_scn(body: TBody, allow_cancel: bool) -> &'static str {
     let done: Rc<RefCell<Vec<String>>> = Rc::new(RefCell::new(vec![]));
     let d2 = done.clone();
+    with(|h| h.prefer_blocked = allow_cancel);
     let probe = || {
         let p = host::cm_context_get();
         if !p.is_null() {
@@ -987,6 +992,7 @@ enum MOp {
 /// the wasip3_task C ABI `version`), optionally moved from task A to task B while pending.
 fn m_scn(version: u32, op: MOp, allow_move: bool) -> &'static str {
     use crate::hexec::{self, HTask};
+    with(|h| h.prefer_blocked = true);
     let tasks = [HTask::new(version), HTask::new(version)];
     let mut alive = [true, true];
     let result: Rc<RefCell<Option<String>>> = Rc::new(RefCell::new(None));
